@@ -94,7 +94,7 @@ func (d *OTLPDecoder) Decode() error {
 	for _, res := range obj.ResourceSpans {
 		for _, scope := range res.ScopeSpans {
 			for _, span := range scope.Spans {
-				span.Attributes = append(span.Attributes, res.Resource.Attributes...)
+				span.Attributes = append(span.Attributes, res.GetResource().GetAttributes()...)
 				attrsMap := map[string]string{}
 				serviceName := populateServiceNames(span)
 				d.initAttributesMap(span.Attributes, "", &attrsMap)
@@ -140,18 +140,18 @@ func (d *OTLPDecoder) writeAttrValue(key string, val any, prefix string, res *ma
 	case *v11.AnyValue_IntValue:
 		(*res)[prefix+key] = fmt.Sprintf("%d", val.(*v11.AnyValue_IntValue).IntValue)
 	case *v11.AnyValue_ArrayValue:
-		for i, _val := range val.(*v11.AnyValue_ArrayValue).ArrayValue.Values {
+		for i, _val := range val.(*v11.AnyValue_ArrayValue).ArrayValue.GetValues() {
 			d.writeAttrValue(strconv.FormatInt(int64(i), 10), _val.GetValue(), prefix+key+".", res)
 		}
 	case *v11.AnyValue_KvlistValue:
-		d.initAttributesMap(val.(*v11.AnyValue_KvlistValue).KvlistValue.Values, prefix+key+".", res)
+		d.initAttributesMap(val.(*v11.AnyValue_KvlistValue).KvlistValue.GetValues(), prefix+key+".", res)
 	}
 }
 
 func (d *OTLPDecoder) initAttributesMap(attrs any, prefix string, res *map[string]string) {
 	if _attrs, ok := attrs.([]*v11.KeyValue); ok {
 		for _, kv := range _attrs {
-			d.writeAttrValue(kv.Key, kv.Value.Value, prefix, res)
+			d.writeAttrValue(kv.Key, kv.GetValue().GetValue(), prefix, res)
 		}
 	}
 }
